@@ -306,22 +306,17 @@ Lemma cbc_split_both (E D : list Z -> list Z) b1 b2 iv :
     (let '(iv1, c1) := cbc_dec_blocks D iv b1 in let '(iv2, c2) := cbc_dec_blocks D iv1 b2 in (iv2, c1 ++ c2)).
 Proof. split; [apply cbc_enc_blocks_app|apply cbc_dec_blocks_app]. Qed.
 
-(* ---- CTR: the generated code loses the unused part of a key-stream block between calls ---------- *)
+(* ---- CTR: two calls on one object vs one call (the general theorem is in Proofs/C09_CTR.v).  Before /repo commit
+   de57de0 ("Python_AES_CTR must keep unused key stream between calls") the two differed for every split inside a block
+   (the check carried ctr_stream_split_refuted with this very witness) -------------------------------------------------- *)
 Definition ctr_two_calls (O : BlockOracle) key iv a b : res (list Z) :=
   st <- ctr_init O key 6 iv ;; '(st1, c1) <- ctr_encrypt O st a ;; '(st2, c2) <- ctr_encrypt O st1 b ;; Ok (c1 ++ c2).
 Definition ctr_one_call (O : BlockOracle) key iv a b : res (list Z) :=
   st <- ctr_init O key 6 iv ;; '(st1, c) <- ctr_encrypt O st (a ++ b) ;; Ok c.
 
-Lemma ctr_split_refuted_witness :
-  exists O key iv a b, exists r1 r2,
-    ctr_two_calls O key iv a b = Ok r1 /\ ctr_one_call O key iv a b = Ok r2 /\ r1 <> r2.
-Proof.
-  exists toy_block_oracle, [1;2;3;4;5;6;7;8;9;10;11;12;13;14;15;16], [10;20;30;40;50;60;70;80;90;100;110;120;130;140;150;160], [1; 2; 3; 4; 5], [6; 7; 8; 9; 10; 11; 12].
-  eexists. eexists. split; [vm_compute; reflexivity|]. split; [vm_compute; reflexivity|].
-  intros H. discriminate H.
-Qed.
-
-Lemma ctr_split_aligned_example :
-  ctr_two_calls toy_block_oracle (repeat 1 16) (repeat 2 16) (repeat 7 16) [6; 7; 8; 9; 10; 11; 12]
-  = ctr_one_call toy_block_oracle (repeat 1 16) (repeat 2 16) (repeat 7 16) [6; 7; 8; 9; 10; 11; 12].
+Lemma ctr_split_unaligned_example :
+  ctr_two_calls toy_block_oracle [1;2;3;4;5;6;7;8;9;10;11;12;13;14;15;16] [10;20;30;40;50;60;70;80;90;100;110;120;130;140;150;160]
+                [1; 2; 3; 4; 5] [6; 7; 8; 9; 10; 11; 12]
+  = ctr_one_call toy_block_oracle [1;2;3;4;5;6;7;8;9;10;11;12;13;14;15;16] [10;20;30;40;50;60;70;80;90;100;110;120;130;140;150;160]
+                [1; 2; 3; 4; 5] [6; 7; 8; 9; 10; 11; 12].
 Proof. vm_compute. reflexivity. Qed.
